@@ -172,6 +172,9 @@ func genRepStakeHist(r *Rng, i int, tier string) []string {
 	}
 	tx("sel a2 %s", r.PickS("v0", "v1", "a0"))
 	tx("sel a3 %s", r.PickS("v0", "v1", "a0"))
+	if nv == 4 && maxv == 100 && r.Chance(1, 2) {
+		downtime(add, "v1") // slashed-validator variant: v1's exchange rate is 0.99 from here on (see genSlashHist)
+	}
 	accts := []string{"a0", "a1", "a2", "a3", "a4", "a5", "v0", "v1"}
 	reps := []string{"v0", "v1", "a0", "a1"}
 	pick := func() string { return accts[r.Intn(len(accts))] }
